@@ -197,3 +197,63 @@ pub fn ref_find<const N: usize>(e: &[REntry; N], n: usize, t: u64) -> Option<usi
     }
     best
 }
+
+/// fixed-width LEB128 decode (w bytes, padded/over-long encodings as written by put_varint_w)
+pub fn get_varint_w(buf: &[u8], pos: usize, w: usize) -> u64 {
+    let mut v: u64 = 0;
+    let mut i = 0;
+    while i < w {
+        let sh = 7 * i as u32;
+        if sh < 64 {
+            v |= ((buf[pos + i] & 0x7f) as u64) << sh;
+        }
+        i += 1;
+    }
+    v
+}
+
+/// Spec decoding of a directory image of exactly N entries in the fixed layout `w` (bytes per column).
+/// None if the count byte is not N, a length is 0, or an id/offset computation leaves u64.
+pub fn ref_decode_fixed<const N: usize>(buf: &[u8], w: &[usize; 4]) -> Option<[REntry; N]> {
+    if buf[0] as usize != N {
+        return None;
+    }
+    let mut e = [REntry { tile_id: 0, offset: 0, length: 0, run_length: 0 }; N];
+    let mut p = 1usize;
+    let mut last: u64 = 0;
+    let mut i = 0;
+    while i < N {
+        let d = get_varint_w(buf, p, w[0]);
+        p += w[0];
+        match last.checked_add(d) { Some(x) => last = x, None => return None }
+        e[i].tile_id = last;
+        i += 1;
+    }
+    i = 0;
+    while i < N {
+        e[i].run_length = get_varint_w(buf, p, w[1]) as u32;
+        p += w[1];
+        i += 1;
+    }
+    i = 0;
+    while i < N {
+        let l = get_varint_w(buf, p, w[2]);
+        p += w[2];
+        if l == 0 || l > u32::MAX as u64 { return None; }
+        e[i].length = l as u32;
+        i += 1;
+    }
+    i = 0;
+    while i < N {
+        let c = get_varint_w(buf, p, w[3]);
+        p += w[3];
+        if c == 0 {
+            if i == 0 { return None; }
+            match e[i - 1].offset.checked_add(e[i - 1].length as u64) { Some(x) => e[i].offset = x, None => return None }
+        } else {
+            e[i].offset = c - 1;
+        }
+        i += 1;
+    }
+    Some(e)
+}
